@@ -283,7 +283,7 @@ func ruleKeyReaders(c *core.Ctx) {
 			kf := callVertices(g, "pdf.(*stdSecHandler).KeyForRef")
 			if len(kf) != 1 {
 				o.Count(1)
-				o.Fail("expected exactly one KeyForRef call, found %d", len(kf))
+				o.Unrec("expected exactly one KeyForRef call, found %d", len(kf))
 				return
 			}
 			o.At(fn.Site(kf[0].Call, "KeyForRef"))
@@ -330,7 +330,7 @@ func ruleAuthOrder(c *core.Ctx) {
 		auth := callVertices(g, "pdf.(*stdSecHandler).authenticate")
 		if len(auth) != 2 {
 			o.Count(1)
-			o.Fail("expected two authenticate calls (empty, supplied), found %d", len(auth))
+			o.Unrec("expected two authenticate calls (empty, supplied), found %d", len(auth))
 			return
 		}
 		first, second := auth[0], auth[1]
@@ -374,7 +374,7 @@ func ruleAuthOrder(c *core.Ctx) {
 			pe := callVertices(g, "pdf.(*Reader).parseEncryptDict")
 			if len(pe) != 1 {
 				o.Count(1)
-				o.Fail("expected one parseEncryptDict call, found %d", len(pe))
+				o.Unrec("expected one parseEncryptDict call, found %d", len(pe))
 				return
 			}
 			o.At(fn.Site(pe[0].Call, "parseEncryptDict"))
@@ -460,7 +460,7 @@ func ruleAuthOrder(c *core.Ctx) {
 			us := callVertices(g, p[1])
 			if len(ow) != 1 || len(us) != 1 {
 				o.Count(1)
-				o.Fail("expected one call each of %s and %s", p[0], p[1])
+				o.Unrec("expected one call each of %s and %s", p[0], p[1])
 				continue
 			}
 			o.At(fn.Site(ow[0].Call, "owner attempt"))
@@ -855,7 +855,7 @@ func rulePasswordPrep(c *core.Ctx) {
 		for _, k := range ks {
 			o.Require(k == 127, "truncation constant %d, want 127", k)
 		}
-		o.Require(len(ks) == 2, "expected the 127-byte limit in the test and in the truncation")
+		o.Shape(len(ks) == 2, "expected the 127-byte limit in the test and in the truncation")
 	})
 }
 
@@ -870,7 +870,7 @@ func ruleStringDecryption(c *core.Ctx) {
 			dv := callVertices(g, "pdf.(*encryptInfo).DecryptBytes")
 			if len(dv) != 1 {
 				o.Count(1)
-				o.Fail("expected exactly one DecryptBytes call, found %d", len(dv))
+				o.Unrec("expected exactly one DecryptBytes call, found %d", len(dv))
 				return
 			}
 			o.At(fn.Site(dv[0].Call, "DecryptBytes"))
@@ -962,7 +962,7 @@ func ruleStringEncryptionUnconditional(c *core.Ctx, rule string) {
 		ev := callVertices(g, "pdf.(*encryptInfo).EncryptBytes")
 		if len(ev) != 1 {
 			o.Count(1)
-			o.Fail("expected exactly one EncryptBytes call in formatString, found %d", len(ev))
+			o.Unrec("expected exactly one EncryptBytes call in formatString, found %d", len(ev))
 			return
 		}
 		o.At(fn.Site(ev[0].Call, "EncryptBytes"))
@@ -975,7 +975,7 @@ func ruleStringEncryptionUnconditional(c *core.Ctx, rule string) {
 				o.Fail("string encryption is additionally conditioned on %q (some strings would be written in plaintext, or unreadable by a decrypting reader)", cnd)
 			}
 		}
-		o.Require(len(conds) == 2, "expected the two guards (type assertion ok, enc != nil), got %v", conds)
+		o.Shape(len(conds) == 2, "expected the two guards (type assertion ok, enc != nil), got %v", conds)
 		o.Require(core.ExprStr(ev[0].Call.Args[0]) == "wenc.ref", "strings must be encrypted under the writer's current object reference")
 		// the encrypted bytes are what is written: l = enc
 		used := false
@@ -1051,7 +1051,7 @@ func ruleWriterSideDefaults(c *core.Ctx, rule string) {
 				o.FailAt(fn.Site(v.AST, ""), "%s: the owner password is used on a path that has not passed the empty-owner-password substitution: with an empty owner password the owner entries are computed from the empty string and the file opens without any password", c.Prog.Pos(v.AST.Pos()))
 			}
 		}
-		o.Require(n >= 2, "uses of the owner password not found")
+		o.Shape(n >= 2, "uses of the owner password not found")
 	})
 	c.Check(rule, "pdf.(*encryptInfo).AsDict/EncryptMetadata", "/EncryptMetadata false is written whenever metadata is left unencrypted, for revision 4 as well as 6", func(o *core.Ob) {
 		fn := c.Prog.Func("pdf", "(*encryptInfo).AsDict")
